@@ -221,4 +221,17 @@ def Https.eq (u o : Https) : Bool :=
 def Https.hashKey (u : Https) : Bytes :=
   (u.uri.take u.pathIdx).map toLower ++ u.uri.drop u.pathIdx
 
+/-- `Https::path_is_dir` -/
+def Https.pathIsDir (u : Https) : Bool := u.path.isEmpty || endsWithSlash u.path
+
+/-- `Https::path_into_dir`: a slash is appended unless the path is empty or ends in one -/
+def Https.pathIntoDir (u : Https) : Https := if u.pathIsDir then u else { u with uri := u.uri ++ [slash] }
+
+/-- `canonical_authority` (both URI types): ASCII letters in lower case -/
+def Https.canonicalAuthority (u : Https) : Bytes := u.authority.map toLower
+def Rsync.canonicalAuthority (u : Rsync) : Bytes := u.authority.map toLower
+
+/-- `Rsync::ends_with` / `Https::ends_with` on the path -/
+def endsWith (s x : Bytes) : Bool := x.length ≤ s.length && s.drop (s.length - x.length) == x
+
 end Rpki.Uri
